@@ -937,6 +937,8 @@ def main(argv):
             summ['disagreements'].append(dict(case=case, kind='model rejects generated scenario', detail=ms[1], model_input=to_model(gs)))
             continue
         r = run_real(gs, d)
+        if r[0] != 'ok' and 'Particle flew farther than a cell' in r[2]:
+            skip('real: particle flew farther than a cell (error exit)'); continue
         if r[0] != 'ok':
             summ['disagreements'].append(dict(case=case, kind='real run failed', detail=r[2][-600:], model_input=to_model(gs)))
             continue
